@@ -82,7 +82,7 @@ func (f *RTFamily) Run(tier string, idx int, r *core.ScnResult) {
 	e := &vsched.Explorer{Bound: bound}
 	e.RunOne = func(prefix []int, sig []uint32) *vsched.Exec {
 		sc := it.Scn
-		last = RunRT(vsched.Config{ClockDeviation: f.Clock, Prefix: prefix, PrefixSig: sig, DelayBounded: sc.Queries+sc.E2e > 1}, &sc)
+		last = RunRT(vsched.Config{ClockDeviation: f.Clock, Prefix: prefix, PrefixSig: sig, DelayBounded: sc.Queries+sc.E2e > 1 || sc.Overlap || sc.Overlap2}, &sc)
 		return last.X
 	}
 	e.Check = func(x *vsched.Exec, cost int) bool {
@@ -150,7 +150,7 @@ func (f *RTFamily) Replay(scn json.RawMessage, choices []int) (string, bool) {
 		return err.Error(), false
 	}
 	sc := it.Scn
-	res := RunRT(vsched.Config{ClockDeviation: f.Clock, Prefix: choices, Trace: false, DelayBounded: sc.Queries+sc.E2e > 1}, &sc)
+	res := RunRT(vsched.Config{ClockDeviation: f.Clock, Prefix: choices, Trace: false, DelayBounded: sc.Queries+sc.E2e > 1 || sc.Overlap || sc.Overlap2}, &sc)
 	s := fmt.Sprintf("class: %s\nrequest: %s\nchoices: %v\n%s virtual=%s steps=%d\nwire:\n", it.Class, scn, choices, res.Summary(), res.X.Virtual, res.X.Steps)
 	wl := (&Result{Net: res.Net}).WireLog()
 	if len(wl) > 6000 {
